@@ -553,7 +553,23 @@ def z2rank(mat):
         mat is destroyed upon output!
     Returns:
     r: int - rank of the matrix under Z2 algebra.'''
-    return torch.linalg.matrix_rank(mat.to(torch.float32))
+    m = mat.to(torch.int64) % 2 # work on a copy, Gaussian elimination over GF(2)
+    nr, nc = m.shape[0], m.shape[1]
+    r = 0
+    for i in range(nc):
+        if r < nr:
+            nz = torch.nonzero(m[r:, i])
+            if nz.shape[0] > 0:
+                k = r + int(nz[0, 0])
+                if k != r:
+                    tmp = m[r].clone()
+                    m[r] = m[k]
+                    m[k] = tmp
+                for j in range(r + 1, nr):
+                    if int(m[j, i]) != 0:
+                        m[j] = (m[j] + m[r]) % 2
+                r += 1
+    return torch.tensor(r)
 
 
 @torch.jit.script
